@@ -13,6 +13,7 @@ Every string is used as a field name, a method name, a class-name part and a con
 Oracle: ref (this file): the pool the independent writer was given; everything compared as UTF-16 code-unit sequences.
 """
 import itertools
+import re
 import struct
 
 from mc.core import Acc, h8
@@ -116,7 +117,25 @@ def nontrivial(s):
     return any(u == 0 or u >= 0x80 for u in us) or len(us) >= 127
 
 
-def judge(strings, last):
+_DEC = []
+
+
+def _decoy():
+    from gen import dexgen as G
+    from androguard.core import dex
+    if not _DEC:
+        _DEC.append(G.build(build_model(["d%03d" % i for i in range(40)])[0]))
+    vm = dex.DEX(_DEC[0])
+    vm.get_strings()
+    for i in range(vm.get_len_strings()):
+        vm.CM.get_string(i)
+    for m in vm.get_classes()[0].get_methods():
+        for ins in m.get_instructions():
+            if ins.get_name().startswith("const-string"):
+                ins.get_string()
+
+
+def judge(strings, last, decoy=True):
     """-> list of (key, msg)"""
     from gen import dexgen as G
     from androguard.core import dex
@@ -145,8 +164,23 @@ def judge(strings, last):
         out.append(("%s:%s%s" % (api, cls_of(s), ":at-eof" if last else ""),
                     "%s: expected code units %s, got %s" % (api, [hex(u) for u in u16(s)][:12], got)))
     try:
+        if decoy:
+            # history: a DIFFERENT file whose string ids 0..~125 hold other strings is parsed and queried first in this process
+            _decoy()
         vm = dex.DEX(raw)
         got = vm.get_strings()
+        # the alternative entry points must agree: count, per-item size / raw MUTF-8 bytes, raw lookup, regexp lookup
+        if vm.get_len_strings() != len(P.slist):
+            bad("get_len_strings", strings[0], vm.get_len_strings())
+        for it, sref in zip(vm.strings or [], P.slist):
+            if it.get_utf16_size() != len(u16(sref)) or bytes(it.get_data()) != G.mutf8(sref)[0] + b"\x00":
+                bad("string_data_item", sref, [it.get_utf16_size(), bytes(it.get_data()).hex()[:40]])
+                break
+        for sref in strings[:3]:
+            g = vm.get_regex_strings(re.escape(sref))
+            w = [x for x in P.slist if re.match(re.escape(sref), x)]
+            if g is None or [u16(x) for x in g] != [u16(x) for x in w]:
+                bad("get_regex_strings", sref, None if g is None else len(g))
         if [u16(x) for x in got] != [u16(x) for x in P.slist]:
             for a, b in itertools.zip_longest(got, P.slist):
                 if a is None or b is None or u16(a) != u16(b):
@@ -154,7 +188,7 @@ def judge(strings, last):
                     break
         for s in strings:
             i = P.sidx[s]
-            for api, g in (("cm.get_string", vm.CM.get_string(i)), ("get_cm_string", vm.get_cm_string(i))):
+            for api, g in (("cm.get_string", vm.CM.get_string(i)), ("get_cm_string", vm.get_cm_string(i)), ("cm.get_raw_string", vm.CM.get_raw_string(i))):
                 if u16(g) != u16(s):
                     bad(api, s, [hex(u) for u in u16(g)][:12])
         c0 = vm.get_classes()[0]
